@@ -56,59 +56,13 @@
 
    One style: stdlib lists. *)
 From Coq Require Import NArith List Bool.
-From DvcData Require Import Base.Val Model.Transfer.
+From DvcData Require Import Base.Val Model.Transfer Gen.StorageMap.
 Import ListNotations.
 Open Scope N_scope.
 
-Definition name := list N.
-Definition key := list name.
-Definition sid := N.                         (* an object store: (fsid, path) *)
-
-Fixpoint key_eqb (a b : key) : bool :=
-  match a, b with
-  | [], [] => true
-  | x :: a', y :: b' => list_N_eqb x y && key_eqb a' b'
-  | _, _ => false
-  end.
-
-(* ---- StorageInfo / StorageMapping ---- *)
-Record sinfo := { si_data : option sid; si_cache : option sid; si_remote : option sid }.
-Definition smap := list (key * sinfo).       (* dict: insertion order, keys pairwise distinct *)
-
-(* not (len(prefix) > len(key)) and key[:len(prefix)] == prefix *)
-Definition matches (prefix k : key) : bool :=
-  negb (Nat.ltb (length k) (length prefix)) && key_eqb (firstn (length prefix) k) prefix.
-
-(* sorted(..., key=len(prefix), reverse=True): stable insertion sort, longest first *)
-Fixpoint insert_desc (x : key * sinfo) (l : list (key * sinfo)) : list (key * sinfo) :=
-  match l with
-  | [] => [x]
-  | y :: r => if Nat.ltb (length (fst y)) (length (fst x)) then x :: l else y :: insert_desc x r
-  end.
-Definition sort_desc (l : list (key * sinfo)) : list (key * sinfo) := fold_right insert_desc [] l.
-
-Definition pick (cur new : option sid) : option sid :=
-  match cur with None => new | Some _ => cur end.
-Definition is_some (o : option sid) : bool := match o with Some _ => true | None => false end.
-
-Fixpoint resolve_loop (l : list (key * sinfo)) (d c r : option sid) : sinfo :=
-  match l with
-  | [] => {| si_data := d; si_cache := c; si_remote := r |}
-  | (_, s) :: rest =>
-      let d' := pick d (si_data s) in
-      let c' := pick c (si_cache s) in
-      let r' := pick r (si_remote s) in
-      if is_some d' && is_some c' && is_some r'
-      then {| si_data := d'; si_cache := c'; si_remote := r' |}
-      else resolve_loop rest d' c' r'
-  end.
-
-(* StorageMapping.__getitem__; None = StorageKeyError *)
-Definition getitem (m : smap) (k : key) : option sinfo :=
-  match filter (fun ps => matches (fst ps) k) m with
-  | [] => None
-  | st => Some (resolve_loop (sort_desc st) None None None)
-  end.
+(* name, key, sid, key_eqb, sinfo, smap, matches, the stable sort sm_sort, pick, is_some,
+   resolve_loop and getitem (StorageMapping.__getitem__; None = StorageKeyError) are GENERATED from
+   index/index.py by translator/storagemap.py into Gen/StorageMap.v on every run. *)
 
 (* ---- the index ---- *)
 Inductive item :=
